@@ -153,12 +153,27 @@ Edit(x) == UNION {EditV(x, v) : v \in Vals}
 Steps(x) == PollerSteps(x) \cup ControllerSteps(x) \cup Edit(x)
 
 Init == s = Init0
-PollerAct == s' \in PollerSteps(s)
-ControllerAct == s' \in ControllerSteps(s)
-Next == s' \in Steps(s)
+\* one named action per code section (the names TLC's coverage reports)
+APTick == s' \in PTick(s)
+APLock == s' \in PLock(s)
+APScanB == s' \in PScanB(s)
+APScanE == s' \in PScanE(s)
+APCmp == s' \in PCmp(s)
+ACPoll == s' \in CPoll(s)
+ACScanLock == s' \in CScanLock(s)
+ACScanB == s' \in CScanB(s)
+ACScanE == s' \in CScanE(s)
+ACDecide == s' \in CDecide(s)
+ATLock == s' \in TLock(s)
+ATWrite == s' \in TWrite(s)
+ATRelock == s' \in TRelock(s)
+AEdit == s' \in Edit(s)
+PollerAct == APTick \/ APLock \/ APScanB \/ APScanE \/ APCmp
+ControllerAct == ACPoll \/ ACScanLock \/ ACScanB \/ ACScanE \/ ACDecide \/ ATLock \/ ATWrite \/ ATRelock
+Next == PollerAct \/ ControllerAct \/ AEdit
 Spec == /\ Init /\ [][Next]_s
         /\ WF_s(PollerAct) /\ WF_s(ControllerAct)
-        /\ SF_s(s' \in PLock(s)) /\ SF_s(s' \in CScanLock(s)) /\ SF_s(s' \in TLock(s)) /\ SF_s(s' \in TRelock(s))
+        /\ SF_s(APLock) /\ SF_s(ACScanLock) /\ SF_s(ATLock) /\ SF_s(ATRelock)
 
 (* ------------------------- properties --------------------------------- *)
 \* clause 1, strong (model only): a Scan issued after a disk-changing Transition returned never returns
